@@ -183,21 +183,27 @@ func (s *FakeSup) Kill(ctx context.Context, req *supvmodel.KillRequest) error {
 		msg := "Unknown process"
 		return &supvmodel.SupervisorError{Kind: supvmodel.NoSuchEntity, Message: &msg}
 	}
+	alive := p.Alive
+	d := time.Until(req.Deadline)
+	if alive && d <= 0 {
+		// like the local supervisor: a request whose deadline has already passed is refused before any signal is sent
+		q.Err = "invalid timeout"
+		s.record(q)
+		s.mu.Unlock()
+		simsync.Signal()
+		s.r.Probe("kill-refused-invalid-timeout")
+		return fmt.Errorf("invalid timeout while killing %s", req.Name)
+	}
 	p.KillReq++
 	if p.KillReq == 1 {
 		p.KillStep = s.r.Step
 		p.KillAt = s.r.Now()
 	}
 	s.record(q)
-	alive := p.Alive
 	s.mu.Unlock()
 	simsync.Signal()
 	if !alive {
 		return nil
-	}
-	d := time.Until(req.Deadline)
-	if d <= 0 {
-		return fmt.Errorf("invalid timeout while killing %s", req.Name)
 	}
 	t := time.NewTimer(d)
 	defer t.Stop()
